@@ -202,6 +202,32 @@ theorem build_returns_live (ops : List Op) (sh : Shape) (res : Nat) (x : Res)
             exact ⟨{ oa with refs := oa.refs + 1 }, by simp [State.live, State.setObj, hcl]⟩
           · simp [hr] at h
 
+/-! ### Tie to the statements of the C source (`Generated/UniqueCacheSteps.lean`, re-extracted from
+`_cffi_backend.c` by `translate/c27_steps.py` on every run) -/
+
+open CffiVerif.Generated.UniqueCacheSteps in
+/-- **The two halves of the model's deallocation are the source's**: `ctypedescr_dealloc` clears the
+weak references first (`clearweak`), then calls `remove_dead_unique_reference`, and only afterwards
+releases the children and frees (`finish`); executing the statements of
+`remove_dead_unique_reference` as they stand in the source deletes the entry exactly when it is a
+dead weak reference — never a live one, which is `finish`'s test; and executing
+`get_or_insert_unique_type` returns the existing object exactly for a live entry and otherwise
+stores a weak reference to the new one, which is `build`. -/
+theorem dealloc_steps_are_source :
+    (∀ e, (runSteps remove_dead_unique_reference e).deleted = modelRemove e) ∧
+    (∀ e, ((runSteps get_or_insert_unique_type e).result, (runSteps get_or_insert_unique_type e).stored)
+            = (some (modelInsert e).1, (modelInsert e).2)) ∧
+    (∃ c r d1 d2 f, posOf .clearWeakrefs ctypedescr_dealloc = some c ∧
+        posOf .removeDead ctypedescr_dealloc = some r ∧ posOf .decrefItem ctypedescr_dealloc = some d1 ∧
+        posOf .decrefStuff ctypedescr_dealloc = some d2 ∧ posOf .free ctypedescr_dealloc = some f ∧
+        c < r ∧ r < d1 ∧ r < d2 ∧ d1 < f ∧ d2 < f) ∧
+    (ctypedescr_dealloc.filter (fun st => st.2 == .removeDead)).map (·.1) = [[.hasKey]] := by
+  refine ⟨?_, ?_, ?_, by decide⟩
+  · intro e; cases e <;> decide
+  · intro e; cases e <;> decide
+  · exact ⟨1, 2, 4, 5, 6, by decide, by decide, by decide, by decide, by decide, by decide, by decide,
+      by decide, by decide, by decide⟩
+
 /-! ### Non-vacuity: concrete histories -/
 
 -- int at 10, int* at 20
